@@ -136,11 +136,19 @@ fn dispatch_check(which: Which) {
                 _ => tp::parse_tls_server_hello_extension(&e[..]),
             });
             let mark0 = unsafe { LAST_MARK };
-            vassert!(r0.is_ok() && (mark0 == NONE) == (mark == NONE), "C05.dispatch.recognition_does_not_depend_on_content_length");
+            // recognised = a content parser ran, or a typed variant was built without one
+            let rec = mark != NONE || !matches!(x, X::Unknown(_, _));
+            let rec0 = mark0 != NONE || matches!(&*r0, Ok((_, x0)) if !matches!(x0, X::Unknown(_, _)));
+            vassert!(r0.is_ok() && rec0 == rec, "C05.dispatch.recognition_does_not_depend_on_content_length");
         }
         if mark == NONE {
             vassert!(calls == 0, "C05.dispatch.unknown.no_content_parser_run");
-            vassert!(matches!(x, X::Unknown(ty, d) if ty.0 == t && is_sub(b, d, 4, l)), "C05.dispatch.unknown_preserved_as_Unknown_type_data");
+            if want == NONE || matches!(x, X::Unknown(_, _)) {
+                vassert!(matches!(x, X::Unknown(ty, d) if ty.0 == t && is_sub(b, d, 4, l)), "C05.dispatch.unknown_preserved_as_Unknown_type_data");
+            } else {
+                // a typed value built without running a content parser must carry the wire type
+                vassert!(tp::TlsExtensionType::from(x).0 == t, "C05.dispatch.typed_without_content_parser_has_the_wire_type");
+            }
             vcover!(want == NONE, "C05.dispatch.cover.unknown_type");
         } else {
             vassert!(calls == 1, "C05.dispatch.known.exactly_one_content_parser_run");
@@ -222,10 +230,11 @@ fn dispatch_twin(which: Which) {
             43 => Some(&[2, 3, 4]),
             45 => Some(&[1, 1]),
             0xff01 => Some(&[0]),
+            0xffce => Some(&[0x13, 0x01, 0, 0x1d, 0, 0, 0, 0, 0, 0]),
             _ => None,
         };
         if let Some(body) = body {
-            let mut full = [0u8; 12];
+            let mut full = [0u8; 16];
             full[0] = b[0];
             full[1] = b[1];
             full[3] = body.len() as u8;
